@@ -28,7 +28,16 @@ ASSUMPTIONS = [
 
 KINDS = ["write", "read", "timeout"]
 FOLLOW = {"v5": ["state", "getPubKey", "sign_unauth"], "v1": ["getPubKey", "sign"]}
-BRINGUP = [0x06, 0x43, 0x06, 0x11]
+def _observed_bringup():
+    """The APDU commands the real bring-up sends to a device found in signer mode, observed
+    once from the code under test (so that the repair is compared with 'the full bring-up
+    checks' whatever they are, not with a list frozen in the harness)."""
+    w = mw.default_world()
+    mw.stack(w)
+    return [a[1] for a in w.apdus()]
+
+
+BRINGUP = _observed_bringup()
 
 
 def cells(tier, seed):
